@@ -58,6 +58,7 @@ type OpInst struct {
 	Extras    []string
 	PadTo     int
 	Barrier   int
+	BGroup    string
 	StartStep int
 	StartNS   int64
 	EndStep   int
@@ -95,11 +96,12 @@ type Shell struct {
 	Plan     func(o *OpInst)
 	barrier  map[int][]*G
 	barrierN map[int]int
+	bgroup   map[string][]*G
 	// Custom tasks (Go functions) report themselves here too
 }
 
 func newShell(s *Sim) *Shell {
-	return &Shell{s: s, barrier: map[int][]*G{}, barrierN: map[int]int{}}
+	return &Shell{s: s, barrier: map[int][]*G{}, barrierN: map[int]int{}, bgroup: map[string][]*G{}}
 }
 
 // Running returns the op instances that are between start and exit.
@@ -572,6 +574,8 @@ func (sh *Shell) parseOp(r *shellRun, w []string) *OpInst {
 			o.PadTo, _ = strconv.Atoi(need())
 		case "-barrier":
 			o.Barrier, _ = strconv.Atoi(need())
+		case "-bgroup":
+			o.BGroup = need()
 		default:
 			s.HarnessFail("op: unknown flag " + w[i] + " in " + strings.Join(w, " "))
 		}
@@ -664,6 +668,18 @@ func (sh *Shell) runOp(r *shellRun, w []string) (int, string) {
 		} else {
 			sh.barrier[k] = append(sh.barrier[k], s.cur)
 			s.park(fmt.Sprintf("op %s: barrier of %d", o.Name, k))
+		}
+	}
+	// named rendezvous: the two commands of a group whose name starts with "g"
+	// wait for each other
+	if strings.HasPrefix(o.BGroup, "g") {
+		if w := sh.bgroup[o.BGroup]; len(w) > 0 {
+			s.Probe("barrier-released")
+			s.ready(w[0])
+			sh.bgroup[o.BGroup] = nil
+		} else {
+			sh.bgroup[o.BGroup] = []*G{s.cur}
+			s.park(fmt.Sprintf("op %s: rendezvous group %s", o.Name, o.BGroup))
 		}
 	}
 	// read inputs
